@@ -81,16 +81,24 @@ Theorem C10_lifted_names_roundtrip : forall v,
 Proof. exact lifted_names_roundtrip. Qed.
 Print Assumptions C10_lifted_names_roundtrip.
 
-(* the `Declarations` table of the CFG header (one add_declaration per parameter
-   and per Declaration statement of the renamed body, keyed by the lifted name;
+(* the `Declarations` table of the CFG header as control_flow_graph/lifting.rs
+   builds it, BEFORE into_ssa (one add_declaration per parameter and per
+   Declaration statement of the renamed body, keyed by the lifted name;
    declarations.rs asserts that no key is inserted twice): on the output of the
    pass it is built without that assert firing and without an invalid name, has
    one row per parameter and declaration under pairwise different keys, and
-   get_declaration answers for the lifted name of a declaration with the
-   location and kind of THAT declaration (for a parameter: the parameter list,
-   a local variable).  Together with C10_renaming_preserves_binding (a use
-   carries the name of the declaration it denotes) this is the lookup
-   use -> declaration that into_ssa's `is_local` and the analyses rely on. *)
+   get_declaration answers for the lifted name of a DECLARATION with the
+   location and kind of that declaration (for a parameter: the parameter list,
+   a local variable).  This is the table into_ssa's `is_local` consults.
+   Not stated here: (1) the composite "a USE the resolver assigns to the k-th
+   declaration of n is looked up as that declaration" -- C10_renaming_preserves_
+   binding gives the use the NAME of that declaration, this theorem the row of
+   every declaration's name, but nothing links the resolver's index k with the
+   location carried by the Declaration statement; the oracle clause `dcl` of
+   lib/props/C10.py judges it on every generated case.  (2) The table the
+   analysis passes see: into_ssa replaces this table by one keyed WITH versions
+   (ssa_impl.rs update_declarations) while get_declaration still strips the
+   version; that table is not modelled (oracle clauses `tab2`, `d=`, `dcl2`). *)
 Theorem C10_declaration_table_keyed_by_declaration : forall params ploc body body' reports,
   ensure_unique_variables params ploc body = Renamed body' reports ->
   Forall nodot (params ++ declared body) ->
